@@ -4,7 +4,7 @@
 From Coq Require Import String.
 From Coq Require Import List Bool NArith.
 Import ListNotations.
-From DV Require Import Text Delta DeltaFacts.
+From DV Require Import Text Delta DeltaFacts DeltaOrder.
 
 (* The history of a state: everything rendered so far, in the order in which it reaches
    the writer = written ++ output buffer ++ buffered removed lines ++ buffered added lines.
@@ -33,6 +33,36 @@ Proof. exact hunk_body_step. Qed.
 Theorem C01_written_only_grows : forall c s il, exists d, out (step c s il) = out s ++ d.
 Proof. exact ext_step. Qed.
 
+(* The history is append-only along every execution of the unified view: nothing that has
+   been rendered is dropped, duplicated or overtaken by something rendered later.  [GI] is
+   the invariant "removed/added lines are buffered only in hunk states"; [sides] is the one
+   local side condition on the input: a mode line or a "Binary files" line does not arrive
+   while removed/added lines are buffered (git prints such lines only in file headers). *)
+Theorem C01_history_append_only : forall c, color_only c = false -> forall ls s,
+  GI s -> sides c s ls ->
+  (exists d, all_items (steps c ls s) = all_items s ++ d) /\ GI (steps c ls s).
+Proof. exact steps_append. Qed.
+
+(* End to end: wherever a hunk stands in the input, the final output contains its header
+   item and then its body lines — once, contiguously, in input order, each with only the
+   marker column removed and tabs expanded. *)
+Theorem C01_hunk_in_final_output : forall c, color_only c = false ->
+  forall pre r frag n body post,
+  let hdr := 64%N :: 64%N :: r in
+  let input := pre ++ (hdr :: body) ++ post in
+  parse_hunk_header hdr = Some (frag, n) ->
+  Forall (fun l => body_line l = true) body -> body <> [] ->
+  sides c init (number_from 0 input) ->
+  exists A B,
+    run c input =
+    A ++ [(length pre, IHunkHeader frag n hdr)] ++ render_body c (S (length pre)) body ++ B.
+Proof. exact hunk_in_final_output. Qed.
+
+(* the side condition is decidable, and vacuous for inputs without mode/binary lines *)
+Theorem C01_side_condition_decidable : forall c ls s,
+  sidesb c s ls = true -> sides c s ls.
+Proof. exact sidesb_sides. Qed.
+
 (* Non-vacuity: a two-file diff whose first hunk ends in changed lines followed by a
    mode-only section (the shape of repaired defect F1): every line once, in order, the
    header of the second file after the last line of the first. *)
@@ -43,4 +73,12 @@ Example C01_example :
      lit "new mode 100755"%string]) =
   [IFileHeader (lit "x"%string) []; IHunkHeader [] 1 (lit "@@ -1,2 +1,2 @@"%string); ILine KZero (lit "c"%string);
    ILine KMinus (lit "o"%string); ILine KPlus (lit "n"%string); IFileHeader (lit "y"%string) (lit "mode +x"%string)].
+Proof. vm_compute. reflexivity. Qed.
+
+(* ... and that input satisfies the side condition of the two theorems above *)
+Example C01_example_side_condition :
+  sidesb (mkCfg false 4 32) init (number_from 0
+    [lit "diff --git a/x b/x"%string; lit "--- a/x"%string; lit "+++ b/x"%string; lit "@@ -1,2 +1,2 @@"%string;
+     lit " c"%string; lit "-o"%string; lit "+n"%string; lit "diff --git a/y b/y"%string; lit "old mode 100644"%string;
+     lit "new mode 100755"%string]) = true.
 Proof. vm_compute. reflexivity. Qed.
